@@ -3,7 +3,7 @@
    concurrent submitters, any jobs, Release; [reachable W Q s] = s is reached from the initial state by SOME label sequence, so
    every theorem below is about all schedules). *)
 From Coq Require Import List Arith NArith Permutation.
-From TarsV Require Import Conc.Gpool Conc.GpoolProofs Conc.GpoolLive Conc.GpoolFair Conc.GpoolEventually.
+From TarsV Require Import Conc.Gpool Conc.GpoolProofs Conc.GpoolLive Conc.GpoolFair Conc.GpoolEventually Conc.GpoolFifo.
 Import ListNotations.
 
 (* no job is handed to a worker twice; what has been handed over is exactly what occupies a worker or has finished *)
@@ -33,6 +33,13 @@ Theorem C19_submit_only_into_room : forall W Q s j s',
 Proof. exact GpoolProofs.submit_only_when_room. Qed.
 Theorem C19_queue_bounded : forall W Q s, reachable W Q s -> length (jobq s) <= Q.
 Proof. exact GpoolProofs.queue_bounded. Qed.
+
+(* the pool is FIFO: jobs are handed to workers in exactly the order in which their sends completed *)
+Theorem C19_hand_over_fifo : forall W Q s, reachable W Q s -> subm s = started s ++ held (dp s) ++ jobq s.
+Proof. exact GpoolFifo.hand_over_fifo. Qed.
+(* with one worker that order shows in the events: every trace of the transition system passes the check applied to the real traces *)
+Theorem C19_fifo_one_worker_traces : forall Q ls s, run 1 Q (init 1) ls = Some s -> fifo1_ok (trace 1 Q (init 1) ls) = true.
+Proof. exact GpoolFifo.fifo1_traces. Qed.
 
 (* ---------- progress ("every job submitted is executed", "Release ... returns") ---------- *)
 (* no deadlock: with a pending job before Release, or with a Release in progress, a step of the pool itself or of a running job
@@ -144,6 +151,8 @@ Print Assumptions C19_parallelism.
 Print Assumptions C19_submit_blocks_only_when_full.
 Print Assumptions C19_submit_only_into_room.
 Print Assumptions C19_queue_bounded.
+Print Assumptions C19_hand_over_fifo.
+Print Assumptions C19_fifo_one_worker_traces.
 Print Assumptions C19_no_deadlock.
 Print Assumptions C19_work_bounded.
 Print Assumptions C19_progress.
